@@ -744,15 +744,46 @@ class Context:
         # do not set _base_hash_on_config as an attribute of Context
         # because it might be changed across threads
         _base_hash_on_config = deepcopy(self.config)
-        # Also take into account the versions of the plugins registered
-        _base_hash_on_config.update(
-            {
-                data_type: (plugin.version(), plugin.compressor, plugin.input_timeout)
-                for data_type, plugin in self._plugin_class_registry.items()
-                if not data_type.startswith(TEMP_DATA_TYPE_PREFIX)
-            }
+        # Also take into account the plugins registered: everything of a plugin class
+        # that ends up in a lineage or decides which plugins are initialized.
+        # Otherwise re-registering a class with the same version but e.g. another
+        # option default or other dependencies is served from the cache.
+        _registry = {
+            data_type: self._plugin_class_fingerprint(plugin)
+            for data_type, plugin in self._plugin_class_registry.items()
+            if not data_type.startswith(TEMP_DATA_TYPE_PREFIX)
+        }
+        # Keep config and registry apart, an option can have the name of a data_type
+        return strax.deterministic_hash((_base_hash_on_config, _registry))
+
+    @staticmethod
+    def _plugin_class_fingerprint(plugin):
+        """Properties of a plugin class which determine the lineage and the dependencies of its
+        instances, see _context_hash."""
+        return (
+            plugin.__name__,
+            plugin.version(),
+            plugin.compressor,
+            plugin.input_timeout,
+            repr(getattr(plugin, "provides", None)),
+            repr(getattr(plugin, "depends_on", None)),
+            bool(plugin.child_plugin),
+            tuple(
+                (base.__name__, base.version())
+                for base in plugin.__bases__
+                if hasattr(base, "version")
+            ),
+            tuple(
+                (
+                    option_name,
+                    bool(option.track),
+                    bool(option.child_option),
+                    repr(option.parent_option_name),
+                    repr((option.default, option.default_factory, option.default_by_run)),
+                )
+                for option_name, option in plugin.takes_config.items()
+            ),
         )
-        return strax.deterministic_hash(_base_hash_on_config)
 
     def _plugins_are_cached(self, targets: ty.Union[ty.Tuple[str], ty.List[str]]) -> bool:
         """Check if all the requested targets are in the _fixed_plugin_cache."""
